@@ -73,7 +73,7 @@ class Taper(om.ExplicitComponent):
             xp = np.array([-span / 2, 0.0, span / 2])
             fp = np.array([taper_ratio, 1.0, taper_ratio])
 
-        taper = np.interp(x.real, xp.real, fp.real)
+        taper = np.interp(x.real, xp.real, fp)
 
         # Modify the mesh based on the taper amount computed per spanwise section
         outputs["mesh"] = np.einsum("ijk,j->ijk", mesh - ref_axis, taper) + ref_axis
@@ -93,22 +93,19 @@ class Taper(om.ExplicitComponent):
 
         # If symmetric, solve for the correct taper ratio, which is a linear
         # interpolation problem
+        # The local taper is linear in the taper ratio, so its derivative is the interpolation weight
+        # of the tip value(s); this is also valid at taper_ratio == 1.
         if symmetry:
             xp = np.array([-span, 0.0])
-            fp = np.array([taper_ratio, 1.0])
+            dfp = np.array([1.0, 0.0])
 
         # Otherwise, we set up an interpolation problem for the entire wing, which
         # consists of two linear segments
         else:
             xp = np.array([-span / 2, 0.0, span / 2])
-            fp = np.array([taper_ratio, 1.0, taper_ratio])
+            dfp = np.array([1.0, 0.0, 1.0])
 
-        taper = np.interp(x, xp, fp)
-
-        if taper_ratio == 1.0:
-            dtaper = np.zeros(taper.shape)
-        else:
-            dtaper = (1.0 - taper) / (1.0 - taper_ratio)
+        dtaper = np.interp(x, xp, dfp)
 
         partials["mesh", "taper"] = np.einsum("ijk, j->ijk", mesh - ref_axis, dtaper)
 
